@@ -55,6 +55,9 @@ META = {
     "C09": {"technique": "systematic delay injection at build-time schedule points (single-site sweep) + random multi-site delay plans, metamorphic/reference oracle",
             "level_text": "Schedule exploration by delay injection: an exhaustive (thorough) or sampled (quick) single-site sweep over all source-level synchronisation points on canonical single-result workflows, plus random multi-site plans on generated programs; the oracle is the reference result, which must not change.",
             "level_note": TB + "; the instrumenter (tools/instr, go/ast) rewrites copies of three engine files that are overlaid at build time; /repo is untouched"},
+    "C12": {"technique": "stateful (model-based) property testing of the plugin step provider: generated concurrent action histories + life-story invariants",
+            "level_text": "Generated histories of environment actions, sequential and overlapped, are applied to a real running plugin step with a recording handler; legal-life-story invariants are checked after every round. Interleavings are real goroutine races perturbed by generated delay plans, not an exhaustive schedule enumeration.",
+            "level_note": "trusted base: the recording StageChangeHandler and the invariant code (harness/vrun/c12.go), the scripted deployer/plugin; scope is the plugin provider (the foreach provider is covered through C13)"},
 }
 
 NOT_APPLICABLE = []
